@@ -369,10 +369,14 @@ func main() {
 			for _, st := range stmts {
 				switch t := st.(type) {
 				case *ast.AssignStmt:
-					if len(t.Lhs) == 1 && exprName(t.Lhs[0]) == "handler" && len(t.Rhs) == 1 {
+					// by role: `v = pkg.WithX(…)` / `v := pkg.WithX(…)` — whatever the local that carries the chain is called
+					if len(t.Lhs) == 1 && len(t.Rhs) == 1 {
+						if _, isIdent := t.Lhs[0].(*ast.Ident); !isIdent {
+							continue
+						}
 						call, ok := t.Rhs[0].(*ast.CallExpr)
-						if !ok {
-							lib.Fatalf("handler is assigned something that is not a call")
+						if !ok || !strings.HasPrefix(lastSel(call.Fun), "With") {
+							continue
 						}
 						name := lastSel(call.Fun)
 						if conditional {
